@@ -20,7 +20,7 @@ suite=$(/verif/tools/baseline_check.sh "$WT" 2>&1 | tail -3)
 echo "suite with change: $suite"
 echo "$suite" | grep -q "baseline_not_passing=0" || { echo "RESULT $NAME: suite fails with change"; exit 1; }
 # demo files: everything in the seed dir except patch/meta
-for f in "$SD"/*; do case "$(basename $f)" in patch.diff|meta.json) ;; *) cp -r "$f" "$WT/$pkgdir/";; esac; done
+case "$democmd" in cp\ *) ;; *) for f in "$SD"/*; do case "$(basename $f)" in patch.diff|meta.json) ;; *) cp -r "$f" "$WT/$pkgdir/";; esac; done;; esac
 echo "demo cmd: $democmd"
 timeout 600 bash -c "$democmd" > /tmp/seed_with.log 2>&1; with=$?
 git apply -R "$SD/patch.diff"
